@@ -224,8 +224,19 @@ struct Holder : HolderBase
 {
     decltype(Make<L, Sev>::go(nullptr)) s;
     using Stream = decltype(Make<L, Sev>::go(nullptr));
-    explicit Holder(long tag) : s(Make<L, Sev>::go(tagref(tag)))
+    // the tag of a statement is what the tag text was when the statement was made: the text handed in here lives in a
+    // buffer that is overwritten (and later freed) while the named stream object is still being filled
+    explicit Holder(long tag) : s(make_with_volatile_tag(tag))
     {
+    }
+    static Stream make_with_volatile_tag(long tag)
+    {
+        if (!tag)
+            return Make<L, Sev>::go(nitro::lang::string_ref(nullptr));
+        auto buf = std::make_unique<std::string>(TAG);
+        Stream st = Make<L, Sev>::go(nitro::lang::string_ref(*buf));
+        buf->assign(buf->size(), 'z');
+        return st; // buf dies here
     }
     explicit Holder(Stream&& other) : s(std::move(other))
     {
